@@ -66,6 +66,7 @@ def main():
         else:
             res = {"status": "harness_error", "error": "unknown task %r" % (t,)}
         res["tag"] = task.get("tag")
+        res["hashseed"] = int(os.environ.get("PYTHONHASHSEED", "0") or 0)
         out.write(json.dumps(res) + "\n")
     out.close()
 
